@@ -106,6 +106,9 @@ def judge(prog, scratch, extras: int) -> Tuple[List[Tuple[str, str, dict]], dict
             c = {k: value_for(k) for k in R}
             c.update({k: value_for(k) for k in extra})
             ctxs.append(c)
+    if R:
+        # the required keys supplied with falsy-but-not-None values: still "supplied"
+        ctxs.append({k: gen.FALSY_VALUES.get(k, 0.0) for k in R})
     pipe = Pipeline(cfg.nodes)
     for ci, ctx in enumerate(ctxs):
         ref = interp.run(prog, gen.ref_data(dkind), ctx)
